@@ -2,3 +2,6 @@ pub mod c01;
 pub mod c12;
 pub mod c03;
 pub mod c06;
+pub mod c07;
+pub mod c09;
+pub mod c15;
